@@ -72,6 +72,10 @@ def gen_l3(rng, dv, v6):
         src, dst = bytes(dv.val(1) for _ in range(4)), bytes(dv.val(1) for _ in range(4))
         # one header in five carries IP options: IHL 6..15 words, the transport header follows the options
         ihl = rng.randrange(6, 16) if rng.random() < 0.2 else 5
+        if rng.random() < 0.3:
+            # length fields that disagree with what is there: inside the header, inside the options, one off the end, far beyond
+            tlen = rng.choice([0, 19, 20, 21, ihl * 4 - 2, ihl * 4 - 1, ihl * 4, ihl * 4 + 1, ihl * 4 + len(l4) - 1, ihl * 4 + len(l4),
+                               ihl * 4 + len(l4) + 1, 65535])
         b = bytes([0x40 | ihl, tos]) + struct.pack(">HHHBBH", tlen, ident, (flags << 13) | frag, ttl, proto, csum) + src + dst
         b += bytes(rng.randrange(256) for _ in range(4 * (ihl - 5)))
         e3 = {"Version": 4, "TOS": tos, "TotalLen": tlen, "ID": ident, "Flags": flags, "FragOff": frag, "TTL": ttl, "Protocol": proto,
@@ -79,6 +83,8 @@ def gen_l3(rng, dv, v6):
     else:
         tc, fl, plen, hop = dv.val(1), rng.randrange(2 ** 20), dv.val(2), dv.val(1)
         src, dst = bytes(dv.val(1) for _ in range(16)), bytes(dv.val(1) for _ in range(16))
+        if rng.random() < 0.3:
+            plen = rng.choice([0, 1, max(0, len(l4) - 1), len(l4), len(l4) + 1, 39, 40, 41, 65535])
         if rng.random() < 0.3:
             src = bytes(rng.choice([0, 0, x]) for x in src)
         b = struct.pack(">IHBB", (6 << 28) | (tc << 20) | fl, plen, proto, hop) + src + dst
